@@ -391,6 +391,31 @@ func (m *MediaEngine) copy() *MediaEngine {
 	return cloned
 }
 
+// snapshot returns a deep enough copy of the MediaEngine, including what has been
+// negotiated so far, on which updateFromRemoteDescription can be tried out.
+func (m *MediaEngine) snapshot() *MediaEngine {
+	m.mu.RLock()
+	defer m.mu.RUnlock()
+	cloned := &MediaEngine{
+		negotiatedVideo:       m.negotiatedVideo,
+		negotiatedAudio:       m.negotiatedAudio,
+		negotiateMultiCodecs:  m.negotiateMultiCodecs,
+		videoCodecs:           append([]RTPCodecParameters{}, m.videoCodecs...),
+		audioCodecs:           append([]RTPCodecParameters{}, m.audioCodecs...),
+		negotiatedVideoCodecs: append([]RTPCodecParameters{}, m.negotiatedVideoCodecs...),
+		negotiatedAudioCodecs: append([]RTPCodecParameters{}, m.negotiatedAudioCodecs...),
+		headerExtensions:      append([]mediaEngineHeaderExtension{}, m.headerExtensions...),
+	}
+	if m.negotiatedHeaderExtensions != nil {
+		cloned.negotiatedHeaderExtensions = make(map[int]mediaEngineHeaderExtension, len(m.negotiatedHeaderExtensions))
+		for id, ext := range m.negotiatedHeaderExtensions {
+			cloned.negotiatedHeaderExtensions[id] = ext
+		}
+	}
+
+	return cloned
+}
+
 func findCodecByPayload(codecs []RTPCodecParameters, payloadType PayloadType) *RTPCodecParameters {
 	for _, codec := range codecs {
 		if codec.PayloadType == payloadType {
